@@ -129,6 +129,47 @@ def _seed(prop: str, base: str, sid: str, patch: str, baseline: set, declined_ok
         shutil.rmtree(root, ignore_errors=True)
 
 
+def _alpha(prop: str, base: str, baseline: set, fraction: float, seed: int, normalise: bool) -> Dict[str, Any]:
+    """Negative control produced mechanically (tools/alpha_rename.py): the locals of every function are renamed (all of them, or a random
+    part).  With alpha-normalisation the check must give exit 0 and no new report line; without it (the rules on their own) it may decline
+    but must not raise an alarm."""
+    name = f'alpha:{"all" if fraction >= 1 else f"{fraction}#{seed}"}:{"norm" if normalise else "rules-only"}'
+    root = _make_scratch(base, name.replace(':', '_').replace('#', '_'))
+    try:
+        import importlib.util
+        spec = importlib.util.spec_from_file_location('alpha_rename', os.path.join(VERIF, 'tools', 'alpha_rename.py'))
+        ar = importlib.util.module_from_spec(spec)
+        spec.loader.exec_module(ar)                    # type: ignore[union-attr]
+        ar.FRACTION = fraction
+        ar.RNG = __import__('random').Random(seed)
+        pk = os.path.join(root, 'src', 'srctools')
+        for dirpath, _, files in os.walk(pk):
+            for f in sorted(files):
+                if f.endswith('.py'):
+                    pth = os.path.join(dirpath, f)
+                    with open(pth, encoding='utf8') as fh:
+                        text = fh.read()
+                    new, _n = ar.rename_module(text, None, '_v')
+                    if new != text:
+                        with open(pth, 'w', encoding='utf8') as fh:
+                            fh.write(new)
+        env = dict(os.environ)
+        env['VERIF_REPO'] = root
+        env['VERIF_NO_EVIDENCE'] = '1'
+        env['VERIF_REPLAY_DIR'] = os.path.join(root, 'replay')
+        if not normalise:
+            env['VERIF_NO_ALPHANORM'] = '1'
+        res = subprocess.run([sys.executable, os.path.join(VERIF, 'check.py'), prop, '--tier', 'quick'], env=env, capture_output=True, text=True, timeout=600)
+        has_v = any(ln.startswith('VIOLATION ') for ln in res.stdout.splitlines())
+        if res.returncode == 1 or has_v:
+            return {'id': name, 'status': 'FALSE-ALARM', 'expect': None, 'exit': res.returncode, 'stdout_tail': res.stdout[-600:]}
+        if normalise and res.returncode != 0:
+            return {'id': name, 'status': 'FALSE-ALARM', 'expect': None, 'exit': res.returncode, 'stdout_tail': 'a pure rename must be analysed like the original: ' + res.stdout[-500:]}
+        return {'id': name, 'status': 'silent-ok' if res.returncode == 0 else 'refused', 'expect': None}
+    finally:
+        shutil.rmtree(root, ignore_errors=True)
+
+
 def _kept_seeds(prop: str) -> List[Any]:
     import json
     out = []
@@ -162,6 +203,7 @@ def run_selftest(ctx: Any, prop: str, rules: Any) -> None:
         with concurrent.futures.ThreadPoolExecutor(max_workers=min(16, os.cpu_count() or 4)) as ex:
             futs = [ex.submit(_one, prop, base, m, baseline) for m in mutants]
             futs += [ex.submit(_seed, prop, base, sid, patch, baseline, dec) for sid, patch, dec in _kept_seeds(prop)]
+            futs += [ex.submit(_alpha, prop, base, baseline, 1.0, 0, True), ex.submit(_alpha, prop, base, baseline, 1.0, 0, False), ex.submit(_alpha, prop, base, baseline, 0.5, 1, False)]
             results = [f.result() for f in futs]
     finally:
         shutil.rmtree(base, ignore_errors=True)
@@ -172,6 +214,7 @@ def run_selftest(ctx: Any, prop: str, rules: Any) -> None:
         'kept_seeds_detected': sum(1 for r in results if r['status'] == 'detected' and r['id'].startswith('seed:')),
         'kept_seeds_declined_as_recorded': sum(1 for r in results if r['status'] == 'seed-declined'),
         'negative_controls_silent': sum(1 for r in results if r['status'] == 'silent-ok'),
+        'alpha_renamed_trees': {r['id']: r['status'] for r in results if r['id'].startswith('alpha:')},
         'repairs_silence_known_findings': sum(1 for r in results if r['status'] == 'repair-silences'),
         'refused_no_verdict': sum(1 for r in results if r['status'] == 'refused'),
         'stale': [r['id'] for r in results if r['status'] == 'stale'],
